@@ -617,7 +617,7 @@ func (l *Ledger) Key() string {
 	for _, id := range l.IDs() {
 		s := l.Streams[id]
 		if s.Closed() {
-			fmt.Fprintf(&b, "%d:x%v%v|", id, s.PeerReset, s.SubjReset)
+			fmt.Fprintf(&b, "%d:x|", id) // how it was closed does not matter any more
 			continue
 		}
 		fmt.Fprintf(&b, "%d:%v%v sw%d q%d rw%d u%d h%d bc%v hd%v|", id, s.PeerEnded, s.SubjEnded, s.SendWin, s.Queued(), s.RecvWin, s.Consumed-s.Granted, s.Held(), s.BodyClosed, s.HandlerDone)
